@@ -28,8 +28,8 @@ func init() {
 	Register(&Rule{ID: "RESETALL", Props: []string{"C06"}, Min: 2,
 		Doc: "every report field the diff step can set (key, added/removed value, flags, links) is cleared before each step by both drivers (the callback loop and the cursor), so no entry carries values of the previous one.",
 		Run: runRESETALL})
-	Register(&Rule{ID: "DECODEBOUNDS", Props: []string{"C05", "C14"}, Min: 1,
-		Doc: "the decoder accepts every length the encoder can emit: no decoding function rejects a decoded length by comparing it with a constant (only with the bytes remaining).",
+	Register(&Rule{ID: "DECODEBOUNDS", Props: []string{"C05", "C14", "C19"}, Min: 1,
+		Doc: "the decoder accepts every length the encoder can emit and nothing truncated: no decoding function rejects a decoded length by comparing it with a constant (only with the bytes remaining), and the byte count of every Uvarint is tested as n <= 0.",
 		Run: runDECODEBOUNDS})
 	Register(&Rule{ID: "QUEUED", Props: []string{"C03"}, Min: 1,
 		Doc: "the node store returns a freshly computed name without error only after the write of that node was queued (an unconditional channel send of the store closure) or the cache vouched for it: no path skips the send.",
@@ -362,6 +362,45 @@ func runDECODEBOUNDS(c *Ctx) {
 	for _, fn := range P.Funcs {
 		if !set[fn] {
 			continue
+		}
+		// the byte count Uvarint returns: 0 means the buffer ended, negative means overflow — both must be rejected
+		for _, ci := range CallsOf(fn) {
+			call, ok := ci.(*ssa.Call)
+			if !ok {
+				continue
+			}
+			sc := call.Call.StaticCallee()
+			if sc == nil || (sc.String() != "encoding/binary.Uvarint" && sc.String() != "encoding/binary.Varint") || call.Referrers() == nil {
+				continue
+			}
+			for _, r := range *call.Referrers() {
+				ex, ok := r.(*ssa.Extract)
+				if !ok || ex.Index != 1 || ex.Referrers() == nil {
+					continue
+				}
+				covers := false
+				for _, u := range *ex.Referrers() {
+					bin, ok := u.(*ssa.BinOp)
+					if !ok || bin.X != ssa.Value(ex) {
+						continue
+					}
+					k, isK := ir.ConstInt(bin.Y)
+					if !isK {
+						continue
+					}
+					switch {
+					case bin.Op == token.LEQ && k == 0, bin.Op == token.LSS && k == 1, bin.Op == token.GTR && k == 0, bin.Op == token.GEQ && k == 1:
+						covers = true
+					}
+				}
+				if covers {
+					c.OK(P.InstrPos(call), "byte count of "+sc.Name()+" in "+ir.FuncName(fn), "tested as n <= 0 (exhausted buffer and overflow both rejected)", false)
+				} else {
+					f := c.Violation(fn, P.InstrPos(call), "exhausted buffer not rejected after "+sc.Name(),
+						"Uvarint returns n == 0 when the buffer ends and n < 0 on overflow; a test that misses n == 0 decodes a truncated node as length 0 — a cut-off top node loads as an (almost) empty tree instead of being rejected")
+					f.Props = []string{"C19"} // well-formed nodes still round-trip: only rejection of bad input breaks
+				}
+			}
 		}
 		// decoded lengths: result #0 of binary.Uvarint/Varint, and what it is converted / stored into
 		lens := map[ssa.Value]bool{}
